@@ -367,6 +367,25 @@ Lemma slow_commit_below_timeout_pf r t ms :
   (ms < request_timeout_ms)%Z -> run_op1 r (OFinishSlow t ms) = run_op1 r (OFinish t Ok).
 Proof. intro H. cbn. apply Z.ltb_lt in H. rewrite H. reflexivity. Qed.
 
+(* ---------- the start-up identity check refuses as soon as ANY answering peer is of another cluster ---------- *)
+Lemma startup_check_spec local answers :
+  startup_check local answers = true <-> (forall id, In (Some id) answers -> id = local).
+Proof.
+  induction answers as [|[id|] r IH]; cbn.
+  - split; [intros _ id []|reflexivity].
+  - destruct (Z.eqb_spec id local) as [->|Hne].
+    + rewrite IH. split; [intros H x [Hx|Hx]; [inversion Hx; reflexivity|auto] | intros H x Hx; apply H; right; exact Hx].
+    + split; [discriminate|]. intros H. exfalso. apply Hne, H. left. reflexivity.
+  - rewrite IH. split; [intros H x [Hx|Hx]; [discriminate|auto] | intros H x Hx; apply H; right; exact Hx].
+Qed.
+
+Lemma startup_check_refuses_foreign_pf local answers id :
+  In (Some id) answers -> id <> local -> startup_check local answers = false.
+Proof.
+  intros Hin Hne. destruct (startup_check local answers) eqn:E; [|reflexivity].
+  exfalso. apply Hne. apply (proj1 (startup_check_spec local answers) E). exact Hin.
+Qed.
+
 Lemma refused_at_begin_pf s t hid p s' :
   (hid <> scid s \/ running s = true \/ check_req p <> None) -> step s (LBegin t hid p) = Some s' -> s' = s.
 Proof.
